@@ -42,12 +42,20 @@ func valStr(v interface{}) string {
 	return fmt.Sprintf("?%T", v)
 }
 
+// proj reads the content back with Walk. The path slices handed to the visitor are kept and only looked at
+// after the walk has returned, as the repository's own callers of Walk do (client.CacheClient.Leaves, the CLI).
 func (d *ctreeDrv) proj() []pv {
-	r := make([]pv, 0)
+	var ps [][]string
+	var vs []string
 	d.t.Walk(func(p []string, _ *ctree.Leaf, v interface{}) error {
-		r = append(r, pv{trace.Strs(p), valStr(v)})
+		ps = append(ps, p)
+		vs = append(vs, valStr(v))
 		return nil
 	})
+	r := make([]pv, 0, len(ps))
+	for i := range ps {
+		r = append(r, pv{trace.Strs(ps[i]), vs[i]})
+	}
 	return r
 }
 
@@ -162,10 +170,13 @@ func (d *ctreeDrv) apply(o ctreeOp) {
 		var ps [][]string
 		var vs []string
 		d.t.WalkSorted(func(q []string, _ *ctree.Leaf, v interface{}) error {
-			ps = append(ps, trace.Strs(q))
+			ps = append(ps, q) // kept, looked at after the walk (see proj)
 			vs = append(vs, valStr(v))
 			return nil
 		})
+		for i := range ps {
+			ps[i] = trace.Strs(ps[i])
+		}
 		rk := ranks(ps)
 		leaves := make([]pvr, len(ps))
 		for i := range ps {
@@ -402,7 +413,7 @@ func ctreeRandom(args []string) error {
 		// Alphabet and depth vary per sequence: small alphabets collide often.
 		alph := []string{"a", "b", "c", "d", "e", "ab", "", "é"}[:2+r.Intn(7)]
 		values := []string{"v1", "v2", "v3"}[:1+r.Intn(3)]
-		maxLen := 1 + r.Intn(4)
+		maxLen := 1 + r.Intn(5)
 		d := &ctreeDrv{w: ss.ws[i%len(ss.ws)]}
 		d.reset()
 		for k := 0; k < *length; k++ {
